@@ -57,6 +57,7 @@ struct Fut {
   int outcome = 0;
   std::uint32_t id = 0;
   std::uint64_t set_invoke = 0;
+  bool by_coroutine = false;  // the future is a coroutine's: it completes through final_suspend (Next), not Promise::Set
 };
 
 class Case;
@@ -99,6 +100,7 @@ class Case final : public sim::CaseBase {
         f.at = kTimes[g.Draw(6)];
         f.outcome = static_cast<int>(g.Draw(3));
         f.id = 10U * static_cast<std::uint32_t>(i + 1) + g.Noise(9);
+        f.by_coroutine = g.Draw(3) == 2;
         futs.push_back(f);
       }
       iterator_insert = g.Flip();
@@ -125,7 +127,7 @@ class Case final : public sim::CaseBase {
     j.Key("futures").Arr();
     static const char* outs[] = {"value", "error", "exception"};
     for (auto& f : futs) {
-      j.Obj().KV("how", f.consume ? "Consume" : "Attach").KV("completes_at_ns", f.at).KV("outcome", outs[f.outcome]).End();
+      j.Obj().KV("how", f.consume ? "Consume" : "Attach").KV("completes_at_ns", f.at).KV("outcome", outs[f.outcome]).KV("produced_by", f.by_coroutine ? "coroutine" : "promise").End();
     }
     j.EndArr();
     if (!futs.empty()) {
@@ -155,7 +157,26 @@ class Case final : public sim::CaseBase {
     v.push_back(sim::Seq());
   }
 
+  std::vector<yaclib::Promise<void, E>> gates;
+
+  static yaclib::Future<T, E> CoFuture(Case* c, std::size_t i, yaclib::Future<void, E> gate) {
+    co_await yaclib::Await(gate);
+    Fut& f = c->futs[i];
+    f.set_invoke = sim::Seq();
+    if (f.outcome == 2) {
+      throw sim::TaggedEx{f.id};
+    }
+    if (f.outcome == 1) {
+      co_return E{f.id};
+    }
+    co_return T{f.id};
+  }
+
   void CompleteFuture(std::size_t i, std::vector<yaclib::Promise<T, E>>& promises) {
+    if (futs[i].by_coroutine) {
+      std::move(gates[i]).Set();
+      return;
+    }
     futs[i].set_invoke = sim::Seq();
     if (futs[i].outcome == 1) {
       std::move(promises[i]).Set(E{futs[i].id});
@@ -211,15 +232,24 @@ class Case final : public sim::CaseBase {
     const std::size_t nf = futs.size();
     std::vector<yaclib::Future<T, E>> owned(nf);
     std::vector<yaclib::Promise<T, E>> promises(nf);
+    gates.clear();
+    gates.resize(nf);
     std::deque<yaclib_std::thread> ts;
     std::vector<WJob> wjobs(waiters.size());
     {
       // the owner holds one unit while it adds members and futures (Add only while the count is non-zero)
       std::vector<yaclib::Future<T, E>> to_attach, to_consume;
       for (std::size_t i = 0; i < nf; ++i) {
-        auto [f, p] = yaclib::MakeContract<T, E>();
-        owned[i] = std::move(f);
-        promises[i] = std::move(p);
+        if (futs[i].by_coroutine) {
+          SIM_PROBE("future_produced_by_coroutine");
+          auto [gf, gp] = yaclib::MakeContract<void, E>();
+          gates[i] = std::move(gp);
+          owned[i] = CoFuture(this, i, std::move(gf));
+        } else {
+          auto [f, p] = yaclib::MakeContract<T, E>();
+          owned[i] = std::move(f);
+          promises[i] = std::move(p);
+        }
         if (futs[i].at == 0) {
           CompleteFuture(i, promises);  // already complete when it is attached / consumed
         }
@@ -360,6 +390,7 @@ class Case final : public sim::CaseBase {
     px[0].CheckQuiescent("C16");
     px[1].CheckQuiescent("C16");
     wg = nullptr;
+    gates.clear();
     ev = nullptr;
     ex[0] = ex[1] = nullptr;
   }
